@@ -83,6 +83,8 @@ def lentil_call(oracle, what=""):
         # counted in the evidence under skipped["memory_cap"], never a violation
         raise Skip("memory_cap") from None
     except Exception as e:  # noqa: BLE001 - deliberate: classify by origin
+        if getattr(e, "harness_error", False):
+            raise               # the harness's own plumbing failed (e.g. vlib/foreign.py's helper process): exit 2
         tb = traceback.extract_tb(e.__traceback__)
         inner = ""
         for fr in reversed(tb):
@@ -177,8 +179,9 @@ class Ctx:
 
 class SubCheck:
     def __init__(self, prop, name, kind, body, rule, strategy=None, enumerate_=None,
-                 examples=(200, 1000), budget_s=(90, 900), exhaustive_tiers=()):
+                 examples=(200, 1000), budget_s=(90, 900), exhaustive_tiers=(), max_shards=None):
         self.prop, self.name, self.kind, self.body, self.rule = prop, name, kind, body, rule
+        self.max_shards = max_shards               # memory-heavy sub-checks run in fewer parallel shards
         self.strategy, self.enumerate_ = strategy, enumerate_
         self.examples, self.budget_s = examples, budget_s
         self.exhaustive_tiers = exhaustive_tiers
@@ -189,10 +192,10 @@ KNOWN_PREDICATES = {}                          # name -> predicate(case) -> bool
 KNOWN_PROBES = collections.defaultdict(list)   # prop -> [(where, text, probe())]
 
 
-def hyp(prop, name, strategy, rule, examples=(200, 1000), budget_s=(90, 900)):
+def hyp(prop, name, strategy, rule, examples=(200, 1000), budget_s=(90, 900), max_shards=None):
     def deco(body):
         REGISTRY[prop].append(SubCheck(prop, name, "hyp", body, rule, strategy=strategy,
-                                       examples=examples, budget_s=budget_s))
+                                       examples=examples, budget_s=budget_s, max_shards=max_shards))
         return body
     return deco
 
@@ -509,7 +512,8 @@ def run_property(prop, tier, seed, only=None, shards=None):
     # 3. generated search
     if shards is None:
         shards = 1 if tier == "quick" else int(os.environ.get("VERIF_SHARDS", "16"))
-    jobs = [(prop, s.name, tier, seed, sh, shards) for s in subs for sh in range(shards)]
+    jobs = [(prop, s.name, tier, seed, sh, min(shards, s.max_shards or shards)) for s in subs
+            for sh in range(min(shards, s.max_shards or shards))]
     nproc = int(os.environ.get("VERIF_PROCS", "16"))
     if len(jobs) == 1 or nproc == 1:
         results = [_worker(j) for j in jobs]
